@@ -124,8 +124,10 @@ fn main() {
         read_requests(cli.file.as_deref().unwrap())
     } else {
         let mut r = Rng::new(cli.seed);
+        r = Rng(r.next()); // decorrelate: hcommon streams of consecutive seeds are one draw apart
         let mut v: Vec<String> = (0..cli.n).map(|_| gen_req(&mut r)).collect();
         let mut r2 = Rng::new(cli.seed ^ 0x5eed);
+        r2 = Rng(r2.next());
         v.extend((0..cli.n / 4).map(|_| gen_malformed(&mut r2)));
         v
     };
